@@ -117,19 +117,43 @@ def keptTextL (L : Lists) (c : Cfg) (d : Nat) : List Node → Str
   | n :: t => keptText L c d n ++ keptTextL L c d t
 end
 
-/-- "Already clean": the predicate sanitization establishes, at the node's true depth `d`. Every
-element is allowed and within the depth limit, is not the subject of a replacement, every
-attribute is allowed on it and carries an acceptable value, and every class is allowed; there are
-no comments. -/
-def CleanElem (L : Lists) (c : Cfg) (d : Nat) (n : Str) (as : List Attr) : Prop :=
+/-- An element with this name and these attributes, `d` element ancestors deep, is kept as it is:
+the name is allowed, the depth is within the limit, every attribute is allowed on it and carries an
+acceptable value, and every class is allowed. -/
+def Keeps (L : Lists) (c : Cfg) (d : Nat) (n : Str) (as : List Attr) : Prop :=
   elemOk L c n = true ∧
   (∀ m, maxDepthValue L c = some m → d < m) ∧
-  replaceNameOf L c n = n ∧ replaceAttrsOf L c n as = as ∧
   (∀ a ∈ as, attrOk L c n a.name = true ∧ valueOk L c n a.name a.value = true ∧
     (a.name = className → ∀ cl ∈ splitWs a.value, classOk L c n cl = true))
 
+/-- … and, in addition, the element is not the subject of a replacement. -/
+def CleanElem (L : Lists) (c : Cfg) (d : Nat) (n : Str) (as : List Attr) : Prop :=
+  Keeps L c d n as ∧ replaceNameOf L c n = n ∧ replaceAttrsOf L c n as = as
+
+/-- "Already clean": the predicate sanitization establishes, with every node at its true depth:
+only elements that are kept as they are and are not subject to a replacement, and no comments. -/
 def Clean (L : Lists) (c : Cfg) (d : Nat) (f : List Node) : Prop :=
   AllElemsL (CleanElem L c) d f ∧ NoOtherL f
+
+mutual
+/-- The documented replacements (deprecated elements and attributes of the mode, replacement lists
+of the configuration) applied to every element, nothing else changed. -/
+def rewrite (L : Lists) (c : Cfg) : Node → Node
+  | .elem n as cs => .elem (replaceNameOf L c n) (replaceAttrsOf L c n as) (rewriteL L c cs)
+  | .text s => .text s
+  | .other => .other
+def rewriteL (L : Lists) (c : Cfg) : List Node → List Node
+  | [] => []
+  | n :: t => rewrite L c n :: rewriteL L c t
+end
+
+/-- The static lists do not contradict themselves: an allowed element is not also a deprecated
+one, and no scheme list is attached to the `class` attribute. (True of the spec's lists and of
+the lists extracted from the implementation, by evaluation.) -/
+def consistent (L : Lists) : Bool :=
+  L.elements.all (fun n => (mapGet L.deprecatedElements n).isNone && (mapGet L.deprecatedAttrs n).isNone) &&
+  L.schemesStrict.all (fun r => r.2.all (fun p => p.1 != className)) &&
+  L.schemesCompat.all (fun r => r.2.all (fun p => p.1 != className))
 
 /-! ## The standard configurations -/
 
